@@ -330,6 +330,9 @@ func (fr *Frame) frameGoal(root, path, base string) string {
 // hintName: the name under which a call is referred to by `assert before` clauses.
 func hintName(c *ssa.CallCommon) string {
 	if f := c.StaticCallee(); f != nil {
+		if o := f.Origin(); o != nil {
+			return o.Name() // instance of a generic function: the name without the type arguments
+		}
 		return f.Name()
 	}
 	if c.IsInvoke() {
@@ -413,6 +416,10 @@ func (fr *Frame) applyHints(c *ssa.CallCommon, pos token.Pos, st *State, instr *
 			}
 		}
 		goal := fr.evalClause(env, h.C)
+		if fr.hintApplied == nil {
+			fr.hintApplied = map[int]bool{}
+		}
+		fr.hintApplied[i] = true
 		vc.addOblig("assert", fmt.Sprintf("%s#assert:%s@%d.%d", shortFuncName(vc.fn), hn, h.K, i+1), st, goal, pos, h.C.Text)
 		st.reach = vc.define("r", "Bool", and(st.reach, goal))
 	}
